@@ -689,7 +689,7 @@ fn extract<'tcx>(tcx: TyCtxt<'tcx>, crate_name: &str) -> J {
         }
         v.push(("body", cx.body_json()));
         // promoted bodies
-        if matches!(kind, DefKind::Fn | DefKind::AssocFn | DefKind::Closure) {
+        if matches!(kind, DefKind::Fn | DefKind::AssocFn | DefKind::Closure | DefKind::Const { .. } | DefKind::AssocConst { .. } | DefKind::Static { .. }) {
             let proms = tcx.promoted_mir(did);
             let mut pj = vec![];
             for pb in proms.iter() {
